@@ -7,10 +7,14 @@ import os
 HERE = os.path.dirname(os.path.dirname(os.path.abspath(__file__)))
 
 NA = {
-    "C01": "numerical equality of four simulators' floating-point results over all gate sequences; no structural clause is both necessary and not already decided under C14/C02 (hbar), C13 (cutoff>=1), C16 (mode order)",
 }
 
 CHECKS = {
+    "C01": dict(
+        cat="other", technique="sibling agreement between the simulators' implementations of one gate: phase exponents of the diagonal gates, displacement amplitude and squeezing Bogoliubov coefficients, complex-form symplectic assembly - translated to sympy / matrix words from source and compared",
+        text="Decides three sibling-agreement clauses that are necessary for the bosonic simulators to implement the same gates: (a) the phase exponents of Kerr and CrossKerr agree between the pure-Fock, mixed-Fock and passive simulators (g_pure = g_passive, g_mixed(ket, bra) = g_pure(ket) - g_pure(bra)); (b) the amplitude the Gaussian displacement step adds equals the alpha of the Fock-space displacement matrix, and the passive/active blocks of Squeezing equal the Bogoliubov coefficients (1/g, 2A'/g) implied by the scalars of the Fock-space squeezing matrix; (c) the Fock `linear` steps assemble [[P, A], [conj A, conj P]], the convention a' = P a + A a^dagger for which the Gaussian update rules are derived (C07e). Equality of photon statistics, state vectors and density matrices of the four simulators over all programs is numerical and NOT decided; the sub-clauses for every hbar, cutoff >= 1 and mode order are decided under C14/C02, C13, C16.",
+        note="Trusted: python ast, sympy, the disentangled form of the squeezing operator. Clause-level claim only.",
+        ref="DESIGN 3/C01"),
     "C02": dict(
         cat="other", technique="hbar-homogeneity (units-of-measure) typing + linear-form normalisation of the sampling-law arguments + outcome-order rule (AST dataflow)",
         text="Decides three structural necessary clauses of the Born-rule property from source: (a) every sampling step feeds dimensionless kernels with hbar-degree-0 inputs and returns quadrature samples of degree 1/2; (b) the mean/cov arguments of the general-dyne normal draw normalise to mu and (sigma+sigma_m)/2 as linear forms; (c) outcomes are concatenated previous-first and the requested mode order reaches the samplers' index construction. It does not decide that the samplers have the exact law (numerical).",
@@ -127,7 +131,7 @@ ADDED = {
 }
 
 # properties whose check is built AND clean on the current tree (exit 0); others stay under not_applicable until then
-READY = ["C02", "C03", "C04", "C05", "C06", "C07", "C08", "C09", "C10", "C11", "C12", "C13", "C14", "C15", "C16", "C17", "C18", "C19", "C20"]
+READY = ["C01", "C02", "C03", "C04", "C05", "C06", "C07", "C08", "C09", "C10", "C11", "C12", "C13", "C14", "C15", "C16", "C17", "C18", "C19", "C20"]
 
 PENDING_REASON = "static check for this property is not built yet in this tree (planned, see DESIGN.md section 3)"
 
